@@ -131,7 +131,8 @@ func (f *Frame) callStatic(instr ssa.Instruction, callee *ssa.Function, bindings
 	// closures and synthetic wrappers are part of the enclosing text: inline
 	isClosure := callee.Parent() != nil
 	isWrapper := callee.Synthetic != "" && len(callee.Blocks) > 0 && callee.Pkg == nil || strings.HasPrefix(callee.Synthetic, "wrapper") || strings.HasPrefix(callee.Synthetic, "bound") || strings.HasPrefix(callee.Synthetic, "thunk")
-	if g.topC != nil && g.topC.InlineAll && len(callee.Blocks) > 0 && pkgOf(callee) == pkgOf(g.top) && f.depth < maxInlineDepth {
+	if g.topC != nil && g.topC.InlineAll && len(callee.Blocks) > 0 && pkgOf(callee) == pkgOf(g.top) && f.depth < maxInlineDepth && !(ct != nil && (ct.Pure || ct.Modular) && !ct.Inline) {
+		// (callees under a `pure` contract stay uninterpreted functions with their proved postconditions)
 		return f.inline(callee, bindings, st, args)
 	}
 	if ct != nil && !ct.Inline && !(isClosure && !hasCallerVisibleContract(ct)) {
@@ -194,7 +195,14 @@ func (f *Frame) inline(callee *ssa.Function, bindings []Val, st *State, args []V
 			}
 		}
 	}
+	if ct := g.ctx.contracts[g.ctx.funcKey(callee)]; ct != nil && (len(ct.LoopInv) > 0 || len(ct.LoopDec) > 0) {
+		// the inlined body keeps the loop annotations of the callee's own contract (re-checked in this context)
+		sub.contract = &Contract{Key: ct.Key, File: ct.File, Line: ct.Line, LoopInv: ct.LoopInv, LoopDec: ct.LoopDec, LoopStep: map[int][]*Clause{}}
+	}
 	entry := st.clone()
+	if sub.contract != nil {
+		sub.entry = entry.clone()
+	}
 	sub.run(entry)
 	if len(sub.rets) == 0 {
 		st.cond = boolLit(false)
